@@ -179,7 +179,8 @@ def parse_swc(
     # Leading spaces are allowed, as this is part of the data in
     # neuromorpho.org. More fields at the end is allowed, such as
     # reading eswc as swc, but with a warning.
-    re_swc = re.compile(rf"^\s*{re_swc_cols_str}\s*([\s+-.0-9]*)$")
+    re_float_nc = f"(?:{RE_FLOAT[1:-1]})"  # same spellings, non-capturing
+    re_swc = re.compile(rf"^\s*{re_swc_cols_str}((?:\s+{re_float_nc})*)\s*$")
 
     last_group = 7 + len(extras) + 1
     ignored_comment = f" {' '.join(names.cols())}"
